@@ -19,12 +19,12 @@
 (***************************************************************************)
 EXTENDS Naturals, Integers, Sequences, FiniteSets, TLC
 
-NoConn == [st |-> "none", key |-> 0, cdrop |-> FALSE, cgone |-> FALSE, cclosed |-> FALSE]
+NoConn == [st |-> "none", key |-> 0, cdrop |-> FALSE, cgone |-> FALSE, cclosed |-> FALSE, sfail |-> FALSE]
 NoCall == [k |-> 0, st |-> "none", tr |-> "", smp |-> FALSE, dl |-> 0, sent |-> FALSE, id |-> -1, ans |-> FALSE, canc |-> 0, P |-> 0, h |-> "none", starts |-> 0, gate |-> FALSE, inc |-> 0]
 
 YInit(n, limit, mif) ==
   [n |-> n, limit |-> limit, mif |-> mif, now |-> 0, conn |-> <<>>, call |-> <<>>, down |-> FALSE,
-   bad01 |-> {}, bad02 |-> {}, bad03 |-> {}, bad04 |-> {}, bad18 |-> {}, bad05 |-> {}, bad06 |-> {}, bad10 |-> {}, bad12 |-> {}, bad13 |-> {}]
+   bad01 |-> {}, bad02 |-> {}, bad03 |-> {}, bad04 |-> {}, bad18 |-> {}, bad05 |-> {}, bad06 |-> {}, bad10 |-> {}, bad12 |-> {}, bad13 |-> {}, bad09 |-> {}, bad14 |-> {}]
 
 Conn(y, k) == IF k \in DOMAIN y.conn THEN y.conn[k] ELSE NoConn
 Call(y, c) == IF c \in DOMAIN y.call THEN y.call[c] ELSE NoCall
@@ -43,11 +43,11 @@ YAdmitted(y, k) ==
                 "a channel was admitted while n channels of its key were alive")
   IN SetConn(y1, k, [c EXCEPT !.st = "alive"])
 
-YConnect(y0, k, key) == LET y == y0 IN SetConn(y, k, [st |-> "offered", key |-> key, cdrop |-> FALSE, cgone |-> FALSE, cclosed |-> FALSE])
+YConnect(y0, k, key) == LET y == y0 IN SetConn(y, k, [st |-> "offered", key |-> key, cdrop |-> FALSE, cgone |-> FALSE, cclosed |-> FALSE, sfail |-> FALSE])
 
 YArrive(y0, k, key) ==
   LET y == y0 IN
-  SetConn(y, k, [st |-> "deciding", key |-> key, cdrop |-> Conn(y, k).cdrop, cgone |-> Conn(y, k).cgone, cclosed |-> Conn(y, k).cclosed])
+  SetConn(y, k, [st |-> "deciding", key |-> key, cdrop |-> Conn(y, k).cdrop, cgone |-> Conn(y, k).cgone, cclosed |-> Conn(y, k).cclosed, sfail |-> Conn(y, k).sfail])
 
 (* the server side of connection k was dropped *)
 YServerDrop(y0, k) ==
@@ -58,9 +58,9 @@ YServerDrop(y0, k) ==
                      "a channel was shed while fewer than n channels of its key were alive"),
                  k, [c EXCEPT !.st = "shed"])
     ELSE LET running == {x \in CallsOf(y, k) : y.call[x].st = "pending" /\ y.call[x].h = "running" /\ y.now < y.call[x].dl} IN
-         SetConn(Bad(Bad(y, "bad10", ~y.down /\ running # {},
+         SetConn(Bad(Bad(y, "bad10", ~y.down /\ running # {} /\ ~c.sfail,
                          "a server channel ended while the handler of a live call was still running"),
-                     "bad10", ~y.down /\ c.st = "alive" /\ ~c.cgone,
+                     "bad10", ~y.down /\ c.st = "alive" /\ ~c.cgone /\ ~c.sfail,
                      "a server channel ended although its client had not closed the connection"),
                  k, [c EXCEPT !.st = "gone"])
 
@@ -77,6 +77,13 @@ YClientClose(y, k) ==
                      "the client closed the write side while the cancellation of an abandoned call was still queued")
        IN SetConn(y1, k, [y1.conn[k] EXCEPT !.cclosed = TRUE])
 WrittenAfterClose(y, k) == Bad(y, "bad10", Conn(y, k).cclosed, "the client wrote a message after closing the write side")
+
+(* the server's transport of connection k reported a failure (injected): serving of that channel stops - the transport is *)
+(* not used again (C14: never write after a failure; C09: serving stops) and the channel is dropped with its handlers   *)
+YServerFault(y, k) == IF k \in DOMAIN y.conn THEN SetConn(y, k, [y.conn[k] EXCEPT !.sfail = TRUE]) ELSE y
+YUseAfterFail(y, side, op) ==
+  Bad(Bad(y, "bad14", TRUE, "a transport was used (" \o op \o ") after it had reported a failure"),
+      "bad09", side = "s", "a server channel went on using its transport after the transport had failed")
 
 YCall(y0, c, k, dl, tr, smp) ==
   LET y == y0 IN
@@ -133,7 +140,7 @@ YHandlerStart(y0, k, c, inc, tr, smp) ==
 YHandlerEnd(y0, c, inc, finished) ==
   LET y == y0
       r == Call(y, c)
-      y1 == Bad(y, "bad06", ~finished /\ ~y.down /\ r.st = "pending" /\ y.now < r.dl /\ Conn(y, r.k).st = "alive",
+      y1 == Bad(y, "bad06", ~finished /\ ~y.down /\ r.st = "pending" /\ y.now < r.dl /\ Conn(y, r.k).st = "alive" /\ ~Conn(y, r.k).sfail,
                 "a handler was aborted before its deadline although its call was neither abandoned nor failed")
   IN IF r.st = "none" \/ r.inc # inc THEN y1
      ELSE SetCall(y1, c, [r EXCEPT !.h = IF finished THEN "finished" ELSE "aborted"])
@@ -197,7 +204,12 @@ YIdle(y0, busy) ==
       y8 == Bad(y7, "bad10", \E k \in DOMAIN y.conn : y.conn[k].st = "alive" /\ y.conn[k].cdrop
                                /\ \A x \in CallsOf(y, k) : y.call[x].st # "pending" /\ y.call[x].h # "running",
                 "every client handle is gone and nothing is in flight, but the server channel has not ended")
-  IN y8
+      failed == {k \in DOMAIN y.conn : y.conn[k].sfail}
+      y9 == Bad(y8, "bad09", \E k \in failed : y.conn[k].st # "gone",
+                "a server channel whose transport failed has not been dropped once the system is idle")
+      y10 == Bad(y9, "bad09", \E c \in cs : y.call[c].k \in failed /\ y.call[c].h = "running",
+                 "a handler of a channel whose transport failed is still running once the system is idle")
+  IN y10
 
-NoBad(y) == y.bad01 = {} /\ y.bad02 = {} /\ y.bad03 = {} /\ y.bad04 = {} /\ y.bad18 = {} /\ y.bad05 = {} /\ y.bad06 = {} /\ y.bad10 = {} /\ y.bad12 = {} /\ y.bad13 = {}
+NoBad(y) == y.bad01 = {} /\ y.bad02 = {} /\ y.bad03 = {} /\ y.bad04 = {} /\ y.bad18 = {} /\ y.bad05 = {} /\ y.bad06 = {} /\ y.bad10 = {} /\ y.bad12 = {} /\ y.bad13 = {} /\ y.bad09 = {} /\ y.bad14 = {}
 =============================================================================
